@@ -36,10 +36,12 @@ def _check(ctx: Ctx) -> None:
         "NOEXT with extension disabled every value with a positive correction is removed before the choice; "
         "NEXT the fit test against the next note of the same pitch compares end + correction with the next onset; "
         "SORT the rewritten list is re-sorted. Not decided: closest-fit arithmetic, non-overlap as a numeric fact.")
-    ctx.assumptions += ["allowed durations are positive integers", "pairings are [note_on, note_off] lists (get_message_pairings)"]
+    ctx.assumptions += ["allowed durations are positive integers", "the list is a well-formed sequence (every note-on eventually matched), so PAIR makes every pairing a [note_on, note_off] list"]
     summ = keykind.summaries(p)
     keykind.check_function(ctx, FN, "KEY", expect_min=1, summ=summ)
     keykind.check_function(ctx, "AbsoluteSequence.get_message_pairings", "KEY", expect_min=2, summ=summ)
+    from ..engines.pairing import check_pairings
+    ctx.floor("pairing-table cases decided", check_pairings(ctx), 14)
 
     # --- FR
     eff = Effects(p)
